@@ -26,6 +26,8 @@ structure CertSt where
   tcs : List (String × TC) := []
   aggs : List (String × AggQC) := []
   tmos : List (String × Tmo) := []
+  /-- BLS: ids whose proof of possession, as the OTHER replicas hold it, does not check out (`cfg … pop=`) -/
+  popBad : List Nat := []
 
 def schemeOf (s : String) : Option Scheme :=
   if s == "ecdsa" then some .ecdsa else if s == "eddsa" then some .eddsa else if s == "bls12" then some .bls12 else none
@@ -67,8 +69,28 @@ def CertSt.signBytes (s : CertSt) (r : Nat) (m : Msg) : CertSt × Nat :=
   | some p => (s, p.1)
   | none => ({ s with truth := (s.nextBytes, ⟨r, m⟩) :: s.truth, nextBytes := s.nextBytes + 1 }, s.nextBytes)
 
+/-! A replica rejects every BLS signature that names a participant (other than itself) whose proof of
+possession it cannot check (`bls12Base.publicKey` → `checkPop`).  The verifier model has no such notion, so
+the driver marks those signatures for the verifying replica with a junk component (junk never verifies);
+the mark is invisible in keys and messages (`unmark`). -/
+def popMark : Nat := 424242
+
+def markSig (B : List Nat) (r : Nat) : Sig → Sig
+  | .bls a j bits => if bits.ids.any (fun i => i != r && B.contains i) then .bls a (j ++ [popMark]) bits else .bls a j bits
+  | sg => sg
+
+def unmarkSig : Sig → Sig
+  | .bls a j bits => .bls a (j.filter (· != popMark)) bits
+  | sg => sg
+
+def markQC (B : List Nat) (r : Nat) (q : QC) : QC := { q with sig := q.sig.map (markSig B r) }
+def unmarkQC (q : QC) : QC := { q with sig := q.sig.map unmarkSig }
+def markTC (B : List Nat) (r : Nat) (t : TC) : TC := { t with sig := t.sig.map (markSig B r) }
+def markAgg (B : List Nat) (r : Nat) (a : AggQC) : AggQC :=
+  { a with qcs := a.qcs.map (fun p => (p.1, markQC B r p.2)), sig := a.sig.map (markSig B r) }
+
 def CertSt.env (s : CertSt) : CertEnv :=
-  { T := fun b => s.truth.lookup b, cfg := s.cfg, store := s.store, tmoMsg := fun id v q => tmoKey id v (some q) }
+  { T := fun b => s.truth.lookup b, cfg := s.cfg, store := s.store, tmoMsg := fun id v q => tmoKey id v (some (unmarkQC q)) }
 
 def descSigM (s : Sig) : String := s!"ok len={s.len} ids={natList s.participants}"
 
@@ -149,9 +171,20 @@ def certStep (s : CertSt) (toks : List String) : CertSt × String :=
     match schemeOf sch, n.toNat? with
     | some k, some n =>
       if n < 1 || n > 40 then (s, "bad-op") else
+      let pop : Option (List Nat) := match field "pop" rest with
+        | none => some []
+        | some p => if k != .bls12 then none else
+          (splitChar ',' p).mapM fun e => match splitChar ':' e with
+            | [id, _] => match id.toNat? with
+              | some id => if 1 ≤ id ∧ id ≤ n then some id else none
+              | none => none
+            | _ => none
+      match pop with
+      | none => (s, "bad-op")
+      | some pop =>
       ({ ready := true, cfg := ⟨n, k⟩, agg := field "agg" rest == some "1",
          blocks := [("G", genesisBlock)], store := [(genesisHash, genesisBlock)],
-         qcs := [("genesis", genesisQC)] }, "ok")
+         qcs := [("genesis", genesisQC)], popBad := pop }, "ok")
     | _, _ => (s, "bad-op")
   | _ =>
   if !s.ready then (s, "bad-op") else
@@ -305,15 +338,16 @@ def certStep (s : CertSt) (toks : List String) : CertSt × String :=
     | _, _, _ => (s, "bad-op")
   | ["verify-qc", r, q] =>
     match s.replica r, s.qcs.lookup q with
-    | some _, some qc => (s, verdictB (verifyQC E qc))
+    | some r, some qc => (s, verdictB (verifyQC E (markQC s.popBad r qc)))
     | _, _ => (s, "bad-op")
   | ["verify-tc", r, t] =>
     match s.replica r, s.tcs.lookup t with
-    | some _, some tc => (s, verdictB (verifyTC E tc))
+    | some r, some tc => (s, verdictB (verifyTC E (markTC s.popBad r tc)))
     | _, _ => (s, "bad-op")
   | ["verify-agg", r, a] =>
     match s.replica r, s.aggs.lookup a with
-    | some _, some ag =>
+    | some r, some ag =>
+      let ag := markAgg s.popBad r ag
       -- Go sorts with an unstable sort over a map: among valid QCs of the same (maximal) view any
       -- one may be reported; all alternatives are listed (separated by " || ")
       match verifyAggQC E ag with
@@ -322,9 +356,10 @@ def certStep (s : CertSt) (toks : List String) : CertSt × String :=
     | _, _ => (s, "bad-op")
   | ["verify-any", r, b, a] =>
     match s.replica r, s.blocks.lookup b with
-    | some _, some b =>
+    | some r, some b =>
+      let b := { b with qc := markQC s.popBad r b.qc }
       if a == "-" then (s, vresStr (fun _ => "ok") (verifyAnyQC E s.agg b.qc none))
-      else match s.aggs.lookup a with
+      else match (s.aggs.lookup a).map (markAgg s.popBad r) with
         | some ag =>
           match (if s.agg then ag.sig else none), verifyAggQC E ag with
           | some _, .ok q =>
@@ -335,19 +370,20 @@ def certStep (s : CertSt) (toks : List String) : CertSt × String :=
     | _, _ => (s, "bad-op")
   | ["verify-pc", r, sg, b] =>
     match s.replica r, s.sigOrNil sg, s.hashOf b with
-    | some _, some sg, some h =>
+    | some r, some sg, some h =>
       match sg with
       | none => (s, "skip")
-      | some _ => (s, vresStr (fun _ => "ok") (verifyPC E sg h))
+      | some _ => (s, vresStr (fun _ => "ok") (verifyPC E (sg.map (markSig s.popBad r)) h))
     | _, _, _ => (s, "bad-op")
   | ["verify", r, sg, m] =>
     match s.replica r, s.sigOrNil sg, s.msgOf m with
-    | some _, some sg, some m =>
-      (s, match sg with | none => "reject" | some sg => verdictB (verify E.T E.cfg sg m))
+    | some r, some sg, some m =>
+      (s, match sg with | none => "reject" | some sg => verdictB (verify E.T E.cfg (markSig s.popBad r sg) m))
     | _, _, _ => (s, "bad-op")
   | ["batch-verify", r, sg, b] =>
     match s.replica r, s.sigOrNil sg with
-    | some _, some sg =>
+    | some r, some sg =>
+      let sg := sg.map (markSig s.popBad r)
       let ents := if b == "-" then some [] else
         (splitChar ',' b).mapM fun e =>
           match splitChar '=' e with
@@ -388,22 +424,22 @@ def certOracleStep (s : CertSt) (toks : List String) : CertSt × String :=
   let E := s.env
   let ans := rhs.headD ""
   match lhs with
-  | ["verify-qc", _, q] =>
-    match s.qcs.lookup q with
+  | ["verify-qc", r, q] =>
+    match (s.qcs.lookup q).map (markQC s.popBad (r.toNat?.getD 0)) with
     | some qc =>
       if ans == "ok" && !soundQC E qc then (s, s!"fail qc-unsound accepted {q} = {qcKey qc} signers={natList (match qc.sig with | some sg => signersFor E.T E.cfg sg (blkMsg qc.hash) | none => [])} quorum={E.cfg.quorum}")
       else if ans == "reject" && honestQC E qc && decide (2 ≤ E.cfg.n) then (s, s!"fail qc-incomplete rejected honest {q} = {qcKey qc}")
       else (s, "pass")
     | none => (s, "pass")
-  | ["verify-tc", _, t] =>
-    match s.tcs.lookup t with
+  | ["verify-tc", r, t] =>
+    match (s.tcs.lookup t).map (markTC s.popBad (r.toNat?.getD 0)) with
     | some tc =>
       if ans == "ok" && !soundTC E tc then (s, s!"fail tc-unsound accepted {t} view={tc.view}")
       else if ans == "reject" && honestTC E tc && decide (2 ≤ E.cfg.n) then (s, s!"fail tc-incomplete rejected honest {t}")
       else (s, "pass")
     | none => (s, "pass")
-  | ["verify-agg", _, a] =>
-    match s.aggs.lookup a with
+  | ["verify-agg", r, a] =>
+    match (s.aggs.lookup a).map (markAgg s.popBad (r.toNat?.getD 0)) with
     | some ag =>
       if ans == "ok" then
         match (field "high" rhs).map (splitChar ':') with
@@ -414,18 +450,18 @@ def certOracleStep (s : CertSt) (toks : List String) : CertSt × String :=
         | _ => (s, "fail agg-shape unparsable high")
       else (s, "pass")
     | none => (s, "pass")
-  | ["verify-any", _, b, _] =>
-    match s.blocks.lookup b with
+  | ["verify-any", r, b, _] =>
+    match (s.blocks.lookup b).map (fun b => { b with qc := markQC s.popBad (r.toNat?.getD 0) b.qc }) with
     | some b => if ans == "ok" && !soundQC E b.qc then (s, s!"fail any-unsound accepted proposal whose QC {qcKey b.qc} is unsound") else (s, "pass")
     | none => (s, "pass")
-  | ["verify-pc", _, sg, b] =>
-    match s.sigOrNil sg, s.hashOf b with
+  | ["verify-pc", r, sg, b] =>
+    match (s.sigOrNil sg).map (·.map (markSig s.popBad (r.toNat?.getD 0))), s.hashOf b with
     | some (some sg), some h =>
       if ans == "ok" && (signersFor E.T E.cfg sg (blkMsg h)).isEmpty then (s, s!"fail pc-unsound accepted vote without a genuine signature over {h}")
       else (s, "pass")
     | _, _ => (s, "pass")
-  | ["verify", _, sg, m] =>
-    match s.sigOrNil sg, s.msgOf m with
+  | ["verify", r, sg, m] =>
+    match (s.sigOrNil sg).map (·.map (markSig s.popBad (r.toNat?.getD 0))), s.msgOf m with
     | some (some sg), some m =>
       if ans == "ok" && decide ((signersFor E.T E.cfg sg m).length < sg.len) then
         (s, s!"fail verify-unsound accepted {sigKey (some sg)} for {m}: genuine signers {natList (signersFor E.T E.cfg sg m)} claimed {natList sg.participants}")
